@@ -189,7 +189,7 @@ func Pathological(gid string) []string {
 		"query { U { _version(limit: 1) { cid } } }", "query { U { g_id _version { cid } } }", "query { U { _version { cid } g { name } } }", "query { U { g { name } _version { cid } } }", "query { G { us { k } _version { cid } } }", "query { U { _similarity(a: {vector: [1, 2]}) } }", "query { U { _similarity(a: {vector: []}) } }",
 		"query { G { us(filter: {g: {us: {g: {name: {_eq: \"g0\"}}}}}) { k } } }", "query { G(filter: {us: {g: {us: {k: {_eq: 0}}}}}) { name } }", "query { G(filter: {_not: {us: {_not: {i: {_eq: 1}}}}}) { name } }",
 		"query { G(filter: {us: {_and: [{i: {_eq: 1}}, {s: {_eq: \"a\"}}]}}) { name } }", "query { G(filter: {us: {}}) { name } }", "query { G(filter: {us: null}) { name } }", "query { U(filter: {g: null}) { k } }", "query { U(filter: {g: {}}) { k } }",
-		"query { U(filter: {_alias: {x: {_eq: 1}}}) { x: i } }", "query { U(filter: {_alias: {nosuch: {_eq: 1}}}) { k } }", "query { U(filter: {_alias: null}) { k } }", "query { U(filter: {_alias: {c: {_gt: 0}}}) { c: _count(a: {}) } }",
+		"query { U(filter: {_alias: {x: {_eq: 1}}}) { x: i } }", "query { U(filter: {_alias: {x: {k: 1}}}) { x: i } }", "query { U(filter: {_alias: {x: {a: true}}}) { x: i } }", "query { G { name us(filter: {_alias: {x: {k: 1}}}) { x: i } } }", "query { U(filter: {_alias: {x: {k: {_eq: 1}}}}) { x: j } }", "query { U(filter: {_alias: {nosuch: {_eq: 1}}}) { k } }", "query { U(filter: {_alias: null}) { k } }", "query { U(filter: {_alias: {c: {_gt: 0}}}) { c: _count(a: {}) } }",
 		"subscription { U { k } }", "subscription { U(filter: {i: {_eq: 1}}) { k } }", "subscription { commits { cid } }",
 		"mutation { create_U(input: {k: 1e400}) { k } }", "mutation { update_U(filter: {k: {_eq: -99}}, input: {i: 1}) { k } }", "mutation { delete_U(filter: {k: {_eq: -99}}) { k } }", "mutation { delete_U(docID: \"not-a-docid\") { k } }",
 		"mutation { create_U(input: []) { k } }", "mutation { create_U(input: [{}, {}]) { k } }", "mutation { create_U(input: {g_id: \"not-a-docid\"}) { k } }", "mutation { update_U(docID: \"" + gid + "\", input: {k: 1}) { k } }", "mutation { upsert_U(filter: {k: {_eq: -98}}, add: {k: -98}, update: {i: 1}) { k } }",
